@@ -141,6 +141,17 @@ class ValueChecker:
         c.SetFraction((1, 2))
         if float(c) != 4.5:
             ctx.fail("float_stale_after_editing_parts", case, "after SetFraction((1,2)) on 4 3/8: float() = %r" % float(c))
+        # values parsed from texts without a fraction part (and built without one) do not share their zero fraction
+        ctx.ev()
+        p1 = FractionValue.CreateFromString("3")
+        d1 = FractionValue(3)
+        p1.GetFraction().numerator = 1
+        p1.GetFraction().denominator = 2
+        d1.GetFraction().numerator = 1
+        p2 = FractionValue.CreateFromString(str(FractionValue(7)))
+        d2 = FractionValue(7)
+        if float(p2) != 7.0 or str(p2) != "7" or float(d2) != 7.0 or p1.GetFraction() is p2.GetFraction() or d1.GetFraction() is d2.GetFraction():
+            ctx.fail("fractionless_values_share_their_fraction", case, "after editing the fraction of FractionValue '3' in place, parsing '7' gives %r (float %r), FractionValue(7) gives %r" % (p2, float(p2), d2))
         # equality is value based on the parts
         ctx.ev()
         if not (fa == self.make(a_spec)) or (fa != self.make(a_spec)):
@@ -287,6 +298,28 @@ class FractionChecker:
                 if not isinstance(a, Fraction) or (n < 0 and ea == 0):
                     return
                 got, want = a**n, ea**n
+            elif op in ("iadd", "isub", "imul", "itruediv"):
+                if not isinstance(a, Fraction) or (op == "itruediv" and eb == 0):
+                    return
+                before = float(a)
+                alias = a
+                if op == "iadd":
+                    a += b
+                    want = ea + eb
+                elif op == "isub":
+                    a -= b
+                    want = ea - eb
+                elif op == "imul":
+                    a *= b
+                    want = ea * eb
+                else:
+                    a /= b
+                    want = ea / eb
+                got = a
+                if float(a) != float(want):
+                    ctx.fail("float_stale_after_augmented_assignment:%s" % op, case, "float() was %r; after %s with %r the fraction is %r but float() = %r (expected %r)" % (before, op, b, a, float(a), float(want)))
+                if alias is not a and float(alias) != before:
+                    ctx.fail("augmented_assignment_changed_the_other_name", case, "%s rebound the name but the old object now floats to %r (was %r)" % (op, float(alias), before))
             elif op == "float":
                 if not isinstance(a, Fraction):
                     return
@@ -328,7 +361,7 @@ def fraction_strategy():
     frac = st.tuples(st.just("frac"), num, den)
     plain = st.tuples(st.just("num"), st.one_of(st.integers(-50, 50), st.integers(-9999, 9999).map(lambda k: k / 100.0)))
     operand = st.one_of(frac, frac, frac, plain)
-    ops = st.sampled_from(["+", "-", "*", "/", "%", "abs", "neg", "pow", "float", "==", "!=", "<", "<=", ">", ">="])
+    ops = st.sampled_from(["+", "-", "*", "/", "%", "abs", "neg", "pow", "float", "==", "!=", "<", "<=", ">", ">=", "iadd", "isub", "imul", "itruediv"])
     return st.tuples(operand, operand, ops, st.integers(-4, 4)).map(lambda t: {"a": t[0], "b": t[1], "op": t[2], "n": t[3]})
 
 
